@@ -18,6 +18,16 @@ eq_same_durations_iff eq_total_duration eq_detects_operator_count eq_detects_bas
 eq_detects_operator_or_identifier eq_detects_duration eq_detects_term slice_spec slice_entries
 slice_wf slice_full index_spec slice_concat_roundtrip'''.split()
 PINS = ['pinJoinEqualSegments', 'pinHashArray', 'pinConcatenateHamiltonian']
+LEAN_MODULES = ['FFVerif.Props.C17', 'FFVerif.Props.C17Bridge']
+# module C17Bridge: pulses that compare equal under the model of __eq__ have the same Hamiltonian function, propagators,
+# control matrix and filter functions (each with its own eigh output; rows matched by identifier)
+THEOREMS = THEOREMS + [
+    'FFVerif.C17.eq_model_same_function', 'FFVerif.C17.eq_model_same_hamiltonian_function',
+    'FFVerif.C17.same_function_same_propagators', 'FFVerif.C17.eq_model_same_propagators',
+    'FFVerif.C17.same_function_same_control_matrix', 'FFVerif.C17.eq_model_same_control_matrix',
+    'FFVerif.C17.cm_error_sem', 'FFVerif.C17.same_function_same_control_matrix_error',
+    'FFVerif.C17.eq_model_same_filter_function', 'FFVerif.C17.hamiltonian_function_is_model_array',
+    'FFVerif.C17BridgeAux.eigh_data_exists']
 GEN_SITES = ['const:pulse_sequence.__eq__']
 COMPONENTS = ['parse_hamiltonian', 'join_segments', 'pulse_eq', 'slice']
 RULES = ['correspondence: _parse_Hamiltonian (default / given / mixed identifiers), '
@@ -219,6 +229,21 @@ def check_equality(ctx, case):
         Bp = gens.build(v)
         if (A == Bp) or (Bp == A):
             probs.append(f'pulses differing in {what} compare equal')
+    # "equal within a tolerance" is not "equal": a slow ramp (every coefficient changes by a few parts in
+    # 1e7 from one segment to the next) against the constant pulse with the values of its last segment,
+    # in ordinary units and in units where all amplitudes are of order 1e-9
+    m = int(rng.integers(3, 8))
+    for unit in (1.0, 1e-9):
+        ramp, flat = dict(desc), dict(desc)
+        c1 = np.asarray(desc['c_coeffs'])[:, :1]*unit
+        n1 = np.asarray(desc['n_coeffs'])[:, :1]
+        grow = 1 + 3e-7*np.arange(m)[None, :] if unit == 1.0 else 1 + 0.5*np.arange(m)[None, :]
+        ramp['c_coeffs'], ramp['n_coeffs'] = c1*grow, n1*np.ones((1, m))
+        flat['c_coeffs'], flat['n_coeffs'] = np.repeat(ramp['c_coeffs'][:, -1:], m, axis=1), ramp['n_coeffs']
+        ramp['dt'] = flat['dt'] = np.full(m, 0.37/unit)
+        R, Fl = gens.build(ramp), gens.build(flat)
+        if np.any(ramp['c_coeffs'] != flat['c_coeffs']) and ((R == Fl) or (Fl == R)):
+            probs.append(f'a ramp over {m} segments compares equal to the constant pulse (amplitudes ~{unit:g})')
     # re-segmentation: split a positive-duration segment
     n = len(desc['dt'])
     g = int(rng.integers(0, n))
